@@ -5,7 +5,7 @@ from concurrent.futures import ThreadPoolExecutor
 ROOT = os.path.dirname(os.path.dirname(os.path.abspath(__file__)))
 HARNESS = os.path.join(ROOT, "harness")
 LEAN = os.path.join(ROOT, "lean")
-TRH = os.path.join(HARNESS, "target", "debug", "trh")
+TRH = os.environ.get("VERIF_TRH") or os.path.join(HARNESS, "target", "debug", "trh")
 TRDRIVER = os.path.join(LEAN, ".lake", "build", "bin", "trdriver")
 WORK = os.path.join(ROOT, "work")
 REPLAYS = os.path.join(ROOT, "replays")
@@ -102,6 +102,32 @@ def grep_forbidden(paths):
     return hits
 
 
+# ----------------------------------------------------------------------------- source fingerprint
+
+def source_fingerprint():
+    """sha256 over every .rs / Cargo.toml under /repo/crates (path + content), `#[cfg(test)]`-agnostic: any edit counts"""
+    h = hashlib.sha256()
+    base = os.path.join(REPO, "crates")
+    for d, dirs, files in sorted(os.walk(base)):
+        dirs.sort()
+        if "/target" in d or "/tests" in d or "/benches" in d or "/examples" in d:
+            continue
+        for f in sorted(files):
+            if f.endswith(".rs") or f == "Cargo.toml":
+                q = os.path.join(d, f)
+                h.update(os.path.relpath(q, base).encode())
+                h.update(open(q, "rb").read())
+    return h.hexdigest()
+
+
+def baseline_fingerprint():
+    p = os.path.join(ROOT, "anchors.json")
+    try:
+        return json.load(open(p)).get("repo_src_sha256")
+    except Exception:
+        return None
+
+
 # ----------------------------------------------------------------------------- cases
 
 def case_text(n, case):
@@ -148,6 +174,7 @@ def parse_log(text):
 HANG_RC = 4
 HANG_MS_FIRST = int(os.environ.get("VERIF_HANG_MS", "5000"))   # the first hang of a batch is waited for this long
 HANG_MS_NEXT = int(os.environ.get("VERIF_HANG_MS_NEXT", "1500"))  # … later ones (and shrinking a hung case) this long
+DRIFT_FACTOR = int(os.environ.get("VERIF_DRIFT_FACTOR", "8"))
 HANG_BUDGET_S = 45.0                                            # wall time a batch may spend waiting for hangs
 
 
@@ -448,6 +475,13 @@ def run_check(prop, tier, seed, replay, ncases, no_build=False):
     n = ncases if ncases is not None else (quick_n if tier == "quick" else thorough_n)
     if (not proof_ok or build_fail) and tier == "quick":
         n = max(n, min(thorough_n, 5 * quick_n))     # §4: search harder for a failing input
+    # the crates' source differs from the tree the models were last validated against (anchors.json): the tie between
+    # model and code has to be re-established on this run, so the quick tier samples as the deep tier's little brother
+    fp, fp0 = source_fingerprint(), baseline_fingerprint()
+    drift = fp0 is not None and fp != fp0
+    if drift and tier == "quick" and ncases is None and not replay:
+        n = max(n, min(thorough_n, spec.get("drift_factor", DRIFT_FACTOR) * quick_n))
+        notes.append("source of /repo/crates differs from the validated baseline (anchors.json): %d generated cases instead of %d" % (n, quick_n))
     cases = []
     if replay:
         r = json.load(open(replay))
@@ -606,6 +640,7 @@ def run_check(prop, tier, seed, replay, ncases, no_build=False):
             "uncovered_transitions": [t for t in spec.get("all_transitions", []) if hist.get(t, 0) == 0],
             "leanchecker": checker_runs,
             "explanation": spec.get("explanation", ""),
+            "source_fingerprint": {"repo_crates_sha256": fp, "validated_baseline": fp0, "matches_baseline": not drift},
         },
         "assumptions": spec.get("assumptions", []),
         "notes": notes[:20],
